@@ -341,6 +341,8 @@ def run(repo: Repo, rep: Report, tier: str) -> None:
         for n in own_nodes(upd.node):
             if isinstance(n, ast.Assign) and isinstance(n.targets[0], ast.Name) and over_all(n.value):
                 union_vars.add(n.targets[0].id)
+            if isinstance(n, ast.AnnAssign) and isinstance(n.target, ast.Name) and n.value is not None and over_all(n.value):
+                union_vars.add(n.target.id)
         rets = [n for n in own_nodes(upd.node) if isinstance(n, ast.Return)]
         rep.require(bool(rets), "R11.1: _update_registry has no return")
         prov = Provenance(upd)
@@ -403,7 +405,10 @@ def run(repo: Repo, rep: Report, tier: str) -> None:
     from rules._imports import import_names
 
     gfc = repo.func(f"{EE}:ExceptionsEmitter._generate_for_codes")
-    bases = sorted({const_str(n.value) for n in own_nodes(gfc.node) if isinstance(n, ast.Assign) and const_str(n.value) in ("ClientError", "ServerError", "HTTPError")} - {None})
+    from sa.flatten import flatten as _flatten
+
+    bases = sorted({c.value for n in own_nodes(_flatten(gfc).node) if isinstance(n, (ast.Assign, ast.Return)) and n.value is not None for c in ast.walk(n.value)
+                    if isinstance(c, ast.Constant) and c.value in ("ClientError", "ServerError", "HTTPError")})
     rep.require(len(bases) >= 2, f"R11.4: base classes used by _generate_for_codes not found ({bases})")
     ev = repo.func("visit.exception_visitor:ExceptionVisitor.visit")
     from sa.match import Locals as _Locals3
